@@ -14,8 +14,10 @@ EXPLANATION = "theorems over the Lean model (recurrence = Spec, chunking, exact 
 ASSUMPTIONS = ["u8 wrapping_add/wrapping_sub/xor modelled by Lean UInt8 arithmetic", "slice indexing panics modelled explicitly"]
 
 def session_case(rng, K, stream, kind, exp="v"):
+    key = K if exp == "v" else pyref.tbc_key(K)
+    L = len(key)
     chunks = partition(rng, stream, max_chunk=rng.choice([1, 3, 7, 40, 41, 100, 1000]))
-    cipher, _, _ = pyref.vanilla_encrypt(K, stream)
+    cipher, _, _ = pyref.vanilla_encrypt(key, stream)
     ops = ["e:" + hx(c) for c in chunks]
     # probe shows the encrypter state; then a *fresh object* is not available in one hdr line, so the
     # decrypter half of the same object (same key, independent state) receives the ciphertext re-partitioned
@@ -23,7 +25,7 @@ def session_case(rng, K, stream, kind, exp="v"):
     ops += ["d:" + hx(c) for c in dch]
     ops.append("pr")
     line = "hdr %s s %s %s" % (exp, hx(K), " ".join(ops))
-    def expect(out, chunks=chunks, dch=dch, stream=stream, cipher=cipher):
+    def expect(out, chunks=chunks, dch=dch, stream=stream, cipher=cipher, key=key, L=L):
         toks = out.split(" ")
         if toks[-1] != "~0":
             return "unexpected rng use / error: " + out[:80]
@@ -31,16 +33,16 @@ def session_case(rng, K, stream, kind, exp="v"):
         got_c = b"".join(unhx(t) for t in toks[:len(chunks)])
         got_p = b"".join(unhx(t) for t in toks[len(chunks):len(chunks) + len(dch)])
         if got_c != cipher:
-            return "ciphertext differs from the recurrence c_n=(x_n^key[n%40])+c_(n-1)"
+            return "ciphertext differs from the recurrence c_n=(x_n^key[n%L])+c_(n-1)"
         if got_p != stream:
             return "decrypter did not recover the sender's bytes"
         # probe: both halves must be in the same state -> continuing must still round-trip
         pe, pd = toks[-1].split(":")
         n = len(stream)
-        ce, _, _ = pyref.vanilla_encrypt(K, bytes(16), n % 40, cipher[-1] if n else 0)
+        ce, _, _ = pyref.vanilla_encrypt(key, bytes(16), n % L, cipher[-1] if n else 0)
         if unhx(pe) != ce:
-            return "encrypter state after traffic is not (len mod 40, last ciphertext byte)"
-        pdx, _, _ = pyref.vanilla_decrypt(K, bytes(16), n % 40, cipher[-1] if n else 0)
+            return "encrypter state after traffic is not (len mod L, last ciphertext byte)"
+        pdx, _, _ = pyref.vanilla_decrypt(key, bytes(16), n % L, cipher[-1] if n else 0)
         if unhx(pd) != pdx:
             return "decrypter state after traffic differs from encrypter state"
         return None
